@@ -577,6 +577,63 @@ def check_opaque_tag_texts(W, rec):
                         return
 
 
+def check_one_environ_several_responses(W, rec, tmpdir):
+    """Histories of the request.  (a) Several responses are made conditional against one environ (a handler that builds
+    a response, discards it and builds another; an error page for a first attempt): each is answered by its own body and
+    the request's own Range.  (b) A file rewritten at the same size within the same second is another representation:
+    the automatic validators of send_file tell the versions apart (no 304 / 206 for the old version's tag)."""
+    from werkzeug.utils import send_file
+
+    Response, create_environ = W["Response"], W["create_environ"]
+    for h in ("bytes=4-7", "bytes=2-", "bytes=-3", "bytes=50-60"):
+        env = create_environ(headers={"Range": h})
+        for i, body in enumerate((b"abcdefghij", b"ABCDEFGHIJKL", b"xyz", b"0123456789")):
+            r = Response(body, mimetype="application/octet-stream")
+            exp = ref_range(h, len(body))
+            try:
+                r.make_conditional(env, accept_ranges=True, complete_length=len(body))
+                it, status, hd = r.get_wsgi_response(env)
+                data = b"".join(it)
+                got = (int(status[:3]), data)
+            except W["HTTPException"] as e:
+                got = (e.code, None)
+            want = (416, None) if exp[0] == "416" else (206, body[exp[1]:exp[2] + 1]) if exp[0] == "206" else (200, body)
+            rec.case()
+            rec.nontrivial(("one-environ", h, i))
+            rec.observe("responses_made_conditional_against_one_environ")
+            if exp[0] != "loose" and got != want:
+                rec.violation("C11/later-response-for-the-same-environ-differs", f"Range {h!r}: response number {i + 1} built for the same environ (body of {len(body)} bytes) answered {got!r}, expected {want!r}",
+                              {"family": "one-environ-several-responses", "Range": h, "response": i + 1}, monitor="range-evaluator")
+                return
+    # (b)
+    p = os.path.join(tmpdir, "versions.bin")
+    base = 1_700_000_000
+    for off1, off2 in ((0.10, 0.60), (0.0, 0.999), (0.25, 0.26)):
+        with open(p, "wb") as f:
+            f.write(b"first version of the data")
+        os.utime(p, (base + off1, base + off1))
+        env0 = create_environ()
+        r1 = send_file(p, env0)
+        tag1 = r1.headers.get("ETag")
+        r1.close()
+        with open(p, "wb") as f:
+            f.write(b"FIRST VERSION OF THE DATA")
+        os.utime(p, (base + off2, base + off2))
+        for hdrs, bad in (({"If-None-Match": tag1}, 304), ({"Range": "bytes=10-", "If-Range": tag1}, 206)):
+            env = create_environ(headers=hdrs)
+            r2 = send_file(p, env, conditional=True)
+            it, status, hd = r2.get_wsgi_response(env)
+            data = b"".join(it)
+            r2.close()
+            rec.case()
+            rec.nontrivial(("same-second-versions", off1, off2, tuple(hdrs)))
+            rec.observe("same_second_file_versions")
+            if int(status[:3]) == bad:
+                rec.violation(f"C11/conditional-got-{bad}-for-another-version", f"a file rewritten at the same size {off2 - off1:.3f}s later: the old version's tag {tag1} still validates ({hdrs}): {status}, body {data!r}",
+                              {"family": "same-second-versions", "headers": hdrs}, monitor="validator-evaluator")
+                return
+
+
 def check_shared_and_growing_bodies(W, rec, tmpdir):
     """Histories around the body.  (a) The application keeps one list of blocks and builds every response from it: a range
     request answered earlier leaves the list as it was, so later complete and partial answers are right.  (b) The length
@@ -742,7 +799,9 @@ def world():
     from werkzeug.test import create_environ
     from werkzeug.wrappers import Response
 
-    return {"Response": Response, "create_environ": create_environ, "FileWrapper": wsgi.FileWrapper, "wsgi": wsgi}
+    from werkzeug.exceptions import HTTPException
+
+    return {"Response": Response, "create_environ": create_environ, "FileWrapper": wsgi.FileWrapper, "wsgi": wsgi, "HTTPException": HTTPException}
 
 
 def inconclusive_reasons(obs, sets, tier):
@@ -820,6 +879,9 @@ def run(shard, rec, rng):
         if idx % 4 == 1:
             with rec.guard({"family": "opaque-tag-texts"}, "C11"):
                 check_opaque_tag_texts(W, rec)
+        if idx % 4 == 3:
+            with rec.guard({"family": "one-environ-several-responses"}, "C11"):
+                check_one_environ_several_responses(W, rec, tmpdir)
         if idx % 4 == 3:
             with rec.guard({"family": "generated-etags"}, "C11"):
                 check_concurrent_generated_etags(W, rec, rng)
